@@ -345,6 +345,8 @@ def run(ctx, res):
         sc = rec.get("scenario")
         if sc and sc.get("op") == "resp":
             rec["shrunk"] = shrink_resp(ctx, sc)
+        elif sc and sc.get("op") == "msgset":
+            rec["shrunk"] = shrink_set(ctx, sc)
 
 
 def fails(ctx, sc):
@@ -391,6 +393,41 @@ def shrink_resp(ctx, sc, budget=60):
     return clean(d)
 
 
+def shrink_set(ctx, sc, budget=50):
+    """ddmin over the entries of a message-set tree (top level and inside wrappers)."""
+    import copy
+
+    tree = copy.deepcopy(sc["tree"])
+
+    def paths(t, pre=()):
+        for i, e in enumerate(t):
+            yield pre + (i,)
+            if e[2] is not None:
+                for p in paths(e[2], pre + (i,)):
+                    yield p
+
+    def without(t, path):
+        t = copy.deepcopy(t)
+        cur = t
+        for i in path[:-1]:
+            cur = cur[i][2]
+        del cur[path[-1]]
+        return t
+
+    changed = True
+    while changed and budget > 0:
+        changed = False
+        for p in sorted(paths(tree), key=lambda q: -len(q)):
+            cand = without(tree, p)
+            budget -= 1
+            if budget <= 0:
+                break
+            if fails(ctx, {"op": "msgset", "tree": cand}):
+                tree, changed = cand, True
+                break
+    return {"op": "msgset", "tree": tree}
+
+
 def search(ctx, res, broken):
     r2 = Result()
     sizes = {"simple": ctx.scale(4000, 12000), "sets": ctx.scale(1500, 5000), "fetch": ctx.scale(600, 2000), "big": 1 << 14}
@@ -409,6 +446,8 @@ def search(ctx, res, broken):
         sc = rec.get("scenario")
         if sc and sc.get("op") == "resp":
             rec["shrunk"] = shrink_resp(ctx, sc)
+        elif sc and sc.get("op") == "msgset":
+            rec["shrunk"] = shrink_set(ctx, sc)
     return r2.monitor_failures[:3]
 
 
